@@ -63,6 +63,15 @@ Theorem c18_len :
 Proof. exact g_len_spec. Qed.
 Print Assumptions c18_len.
 
+(* the hypothesis OrderOK of the view theorems below is not assumed of the implementation: every iteration order observed on the real container is tested with order_okb (duplicate-free, as long as the binding list, every key bound) before the model uses it, and the test is sound *)
+Theorem c18_observed_order_is_tested :
+  forall (K V E : Type) (keqb : K -> K -> bool),
+       KeqbSpec keqb ->
+       forall (h : heap K V E) (g : graph K) (order : list K),
+       GraphOK h g -> order_okb keqb g order = true -> OrderOK g order.
+Proof. exact order_okb_sound. Qed.
+Print Assumptions c18_observed_order_is_tested.
+
 (* to_vec/iter hand out exactly the bound nodes, each once, in the container's order *)
 Theorem c18_iter_to_vec :
   forall (K V E : Type) (keqb : K -> K -> bool),
